@@ -334,7 +334,7 @@ func checkC01(p *core.Program, r *core.Report) {
 	r.Explanation = "Value-flow conformance of the insertion gadget chain to the relation in the statement, parametric in depth and batch size (no unrolling): " +
 		"(O1.1) the round decomposes its index into exactly Depth bits and uses that one decomposition as the path of both Merkle recomputations; (O1.2) the recomputation with the empty leaf is asserted equal to the running root on every path; " +
 		"(O1.3) the round returns the recomputation with the commitment over the same siblings and path; (O1.4) the batch gadget threads the running root from the pre-root through rounds over start+i, items[i], paths[i] for i in 0..batch-1; " +
-		"(O1.5) the final root is asserted equal to the post-root on every path; (O1.6) a Merkle level hashes {node, sibling} ordered by a boolean direction bit, over levels 1..len-1; (O1.7) no repository-introduced hints. " +
+		"(O1.5) the final root is asserted equal to the post-root on every path; (O1.6) a Merkle level hashes {node, sibling} ordered by a boolean direction bit, over levels 1..len-1; (O1.7) no repository-introduced hints; (O1.8) no constraint beyond those (the provable-whenever half). " +
 		"Roles (which struct is the circuit, which gadget is the round, which field is the pre-root …) are bound by dataflow from the anchor prover.SetupInsertion, never by name. " +
 		"Not decided: that gnark's ToBinary/Select/AssertIsEqual and Poseidon2 mean what they say, satisfiability for concrete witnesses, soundness of gnark's own hints."
 	for id, t := range map[string]string{
@@ -345,6 +345,7 @@ func checkC01(p *core.Program, r *core.Report) {
 		"O1.5": "Define: AssertIsEqual(batch result, post-root) on every path; batch operands are circuit fields/dimensions, pairwise distinct",
 		"O1.6": "Merkle gadget: fold from leaf over levels 1..len-1 with step{running, seq[i], bits[i-1]}; step hashes the two orderings of {running, sibling} by a boolean bit",
 		"O1.7": "no NewHint/Commit/Defer and no API handed to code outside the repository in definition code",
+		"O1.8": "completeness: in Define, the batch, round, Merkle and step definitions every constraint-introducing API/gadget call is a subterm of the definition's result or of an assert accounted for by O1.2/O1.5/O1.6 or the input-hash binding (C03)",
 	} {
 		r.Rule(id, t)
 	}
@@ -436,6 +437,7 @@ func checkInsertionChain(p *core.Program, r *core.Report, ctx *circuitCtx, br *b
 	wantEmptySeq := tf.Seq(tf.Elem(tf.ConstInt(0)), tf.Splice(F("proof")))
 	found := false
 	var why []string
+	var emptyAsserts []tf.Event
 	for _, e := range apiEvents(rd, "AssertIsEqual") {
 		a, b, _ := assertEqSides(e.Term)
 		for _, pair := range [][2]*tf.Term{{a, b}, {b, a}} {
@@ -454,6 +456,7 @@ func checkInsertionChain(p *core.Program, r *core.Report, ctx *circuitCtx, br *b
 				why = append(why, "the emptiness assert does not execute on every path")
 			default:
 				found = true
+				emptyAsserts = append(emptyAsserts, e)
 				r.OK("O1.2", rname+": empty-leaf membership against the running root", p.Pos(e.Instr.Pos()), "AssertIsEqual(%s([0 siblings...], path), running root) on every path", g.Name)
 			}
 		}
@@ -469,6 +472,19 @@ func checkInsertionChain(p *core.Program, r *core.Report, ctx *circuitCtx, br *b
 	r.Check(mr.dirBoolInStep || okPath, "O1.6", mr.Step.Name+".DefineGadget: direction bit is boolean", p.Pos(mr.Step.Fn.Pos()),
 		fmt.Sprintf("asserted/selected in the step: %v; path bits come from api.ToBinary: %v", mr.dirBoolInStep, okPath),
 		"the direction bit is neither constrained boolean in the step gadget nor an output of api.ToBinary at the call site: a dishonest prover can choose non-boolean 'bits'")
+	// O1.8: nothing restricts the witness beyond O1.1–O1.6 and the input-hash binding
+	var stepBool []tf.Event
+	for _, e := range mr.Step.Events {
+		if isApi(e.Term, "AssertIsBoolean") && len(e.Term.Args) == 1 && tf.Eq(e.Term.Args[0], tf.Field(mr.Step.Ev.Params[0], mr.Dir)) {
+			stepBool = append(stepBool, e)
+		}
+	}
+	checkNoExtraConstraints(p, r, "O1.8", []*gadgetInfo{br.Circuit, br.Batch, rd, mr.G, mr.Step}, map[*gadgetInfo][]tf.Event{
+		br.Circuit: append([]tf.Event{br.Final}, publicAsserts(br.Circuit, br.T)...),
+		rd:         emptyAsserts,
+		mr.Step:    stepBool,
+	})
+	r.Floor("constraint-introducing calls accounted", 10)
 	// O1.7
 	checkNoHints(p, r, ctx, br.Circuit, "O1.7")
 	r.Floor("index decompositions", 1)
